@@ -270,6 +270,54 @@ theorem C11_composite_names (heap : List FObs) (parts : List Nat)
   obtain ⟨i, hi, hio⟩ := List.mem_filterMap.1 ho
   exact partNames_length o ft (hne i hi o hio)
 
+/-! ## PositionInJobObserver -/
+
+/-- specification: an unscheduled operation's feature is its position among the unscheduled operations of its job -/
+def PosOK (I : Instance) (s : State) (col : List Int) : Prop :=
+  ∀ r ∈ allOps I, isScheduled s r = false → col.getD (opId I r) 0 = (r.2 : Int) - (s.jobIdx.getD r.1 0 : Int)
+
+theorem getD_setAt (l : List Int) (i k : Nat) (v : Int) :
+    (setAt l i v).getD k 0 = if i = k ∧ k < l.length then v else l.getD k 0 := by
+  simp only [setAt, List.getD_eq_getElem?_getD, List.getElem?_set]
+  by_cases h : i = k
+  · subst h
+    by_cases hl : i < l.length
+    · simp [hl]
+    · simp [hl, List.getElem?_eq_none (Nat.le_of_not_lt hl)]
+  · simp [h]
+
+/-- the renumbering fold of `PositionInJobObserver.update`: positions `a … a+m-1` of job `j` get `c, c+1, …` -/
+theorem renumber_fold (I : Instance) (j : Nat) : ∀ (m a c : Nat) (col : List Int) (k : Nat),
+    (((List.range' a m).zipIdx c).foldl (fun col (pk : Nat × Nat) => setAt col (opId I (j, pk.1)) pk.2) col).getD k 0 =
+      (if opIdBase I j + a ≤ k ∧ k < opIdBase I j + a + m ∧ k < col.length then
+          ((c : Int) + ((k - (opIdBase I j + a) : Nat) : Int)) else col.getD k 0)
+  | 0, a, c, col, k => by
+    have : ¬ (opIdBase I j + a ≤ k ∧ k < opIdBase I j + a + 0 ∧ k < col.length) := by omega
+    rw [if_neg this]
+    rfl
+  | m + 1, a, c, col, k => by
+    simp only [List.range'_succ, List.zipIdx_cons, List.foldl_cons]
+    rw [renumber_fold I j m (a + 1) (c + 1) _ k]
+    have hid : opId I (j, a) = opIdBase I j + a := rfl
+    simp only [hid, setAt, List.length_set]
+    by_cases h1 : opIdBase I j + (a + 1) ≤ k ∧ k < opIdBase I j + (a + 1) + m ∧ k < col.length
+    · rw [if_pos h1, if_pos (by omega)]
+      push_cast
+      omega
+    · rw [if_neg h1]
+      have := getD_setAt col (opIdBase I j + a) k c
+      simp only [setAt] at this
+      rw [this]
+      by_cases h2 : opIdBase I j + a = k ∧ k < col.length
+      · rw [if_pos h2, if_pos (by omega)]
+        have : k - (opIdBase I j + a) = 0 := by omega
+        rw [this]; simp
+      · rw [if_neg h2, if_neg (by omega)]
+
+end JS
+
+namespace JS
+
 /-- **C11 (constructible).** Every feature observer can be constructed in every state of every instance, for
 every list of supported feature types (and the default `None`). -/
 theorem C11_constructible (w : FWorld) (kind : FKind) (fts : Option (List FT)) (hk : kind.isFeature = true)
